@@ -435,6 +435,12 @@ impl<'a> ReadAdapter<'a> {
     ///
     /// This should only be called when we can't read from the reader directly
     fn buffer_at_least(&mut self, count: usize) -> Result<(), DeserializationError> {
+        // When `buf` is reset after having been fully consumed, `pos` is left pointing past its
+        // end; bring it back before appending, or the bytes buffered below would never be seen
+        if self.pos > self.buf.len() {
+            self.pos = 0;
+        }
+
         // Read until we have at least `count` bytes, or until we reach end-of-file,
         // which ever comes first.
         loop {
